@@ -142,6 +142,7 @@ func runC06(c *Ctx, tier string) {
 	// F1
 	runSortSentinels(c, "C06-F1")
 	runSortKeyOperandsInvariant(c, "C06-F2")
+	runMergeHeapRootOnly(c, "C06-M1")
 	// S3
 	spillPeekerCopy(c, "C06-S3")
 }
